@@ -33,6 +33,10 @@ def main():
         else:
             doc["err"] = f"{type(p.exc).__name__}: {p.exc} at {p.where}"
         doc["distance"] = m.distance
+        # what the loaded model's metric function actually computes, on fixed probe vectors (written by ANOTHER process than this one)
+        px, py = np.array([0.3, 0.2, 0.5, 0.7]), np.array([0.1, 0.6, 0.3, 0.9])
+        pr = safe_call(m.distance_fn, px, py)
+        doc["probe"] = float(pr.value).hex() if pr.ok else "exc"
     json.dump(doc, open(out, "w"))
 
 
